@@ -15,6 +15,9 @@ fn play(path: &str) -> Vec<String> {
         Ok(s) => s,
         Err(e) => return vec![format!("LOAD-ERR {e}")],
     };
+    // the constructor draws a random story seed: fix it, and bound the number of steps of a continue
+    story.verif_set_seed(7, 0);
+    story.verif_set_fuel(Some(200_000));
     for _turn in 0..5 {
         let mut lines = 0;
         while story.can_continue() && lines < 200 {
